@@ -1,12 +1,14 @@
 #!/bin/bash
 # usage: tools/try_mutation.sh <patch.diff> <PROP> [extra ./verify check args...]
-# Applies a seeded change to /repo, runs the check, and always reverts.
+# Applies a seeded change to /repo (or to the scratch worktree $MUT_REPO, used while a long run needs /repo itself),
+# runs the check against that tree, and always reverts.
 set -u
 patch="$1"; prop="$2"; shift 2
-cd /repo || exit 9
+R="${MUT_REPO:-/repo}"; export PETL_REPO="$R"
+cd "$R" || exit 9
 if [ -n "$(git status --porcelain --untracked-files=no)" ]; then echo "repo not clean"; exit 9; fi
 git apply "$patch" || { echo "patch does not apply"; exit 9; }
-trap 'git -C /repo checkout -- . ' EXIT
+trap 'git -C "$R" checkout -- . ' EXIT
 cd /verif && ./verify check "$prop" "$@"
 rc=$?
 echo "EXIT=$rc"
